@@ -9,7 +9,7 @@
         → "ok"                       (the environment is append-only, state of the driver)
     recover <hdrSize> <footSize> <recHdr> <zeroProbe> <rle>
         rle = comma-separated runs  z:<n>  (n zero cells)  |  <id>:<start>:<n>  (cells (id,start)…(id,start+n-1))
-        → "fail <stage>"  |  "ok <replayed> <viaScan 0|1> <frames status:sum:R|E,…|->"
+        → "fail <stage>"  |  "ok <replayed> <viaScan 0|1> <frames status:sum:R|E|?,…|->"   (? = replayed frame, readability not modelled)
     emit staged <kinds w|t|f,…> → canonical token list of the copy-and-rename protocol around the given
                                  inner pwrite/ftruncate/fsync sequence on the temp file (tie #1)
     emit put | putfixed      → canonical token list of the put protocol
@@ -67,8 +67,9 @@ def showFail : Fail → String
 
 def showOutcome : Outcome → String
   | .fail f => s!"fail {showFail f}"
-  | .ok fs n v =>
-    let items := fs.map (fun f => s!"{f.status}:{f.sum}:{if f.readable then "R" else "E"}")
+  | .ok fs n v c =>
+    let items := fs.mapIdx (fun i f =>
+      s!"{f.status}:{f.sum}:{if !f.readable then "E" else if i ≥ c ∧ f.status = 0 then "?" else "R"}")
     s!"ok {n} {if v then 1 else 0} {if items.isEmpty then "-" else ",".intercalate items}"
 
 structure DState where
